@@ -276,9 +276,16 @@ def r3(tree, rep, nts):
     rep.check("C20.R3", "Common.get_connection_hints writes the same key sets", ok, site(gh, TR), key="C20.R3:get_connection_hints")
 
 
+def r4(tree, rep):
+    """a hint that parses but whose endpoint fails at once (an illegal host name) is one failed contender, never the end of the race"""
+    from .C07 import race_discipline
+    race_discipline(tree, rep, rule="C20.R4")
+
+
 def run(tree, rep, tier):
     r1_r2(tree, rep)
     r3(tree, rep, _namedtuples(tree))
+    r4(tree, rep)
 
 
 MUTANTS = [
